@@ -8,9 +8,18 @@
 //!   m <i> <k> (<var>)*k       marginal_map over k query variables (weights 1/2,1/2)
 //!   c <i> <var> <b>           condition (result's unfolding)
 //!   s <i> <n>                 smooth    (result's unfolding)
+//!   r <count> <q0> <q1>       repeat: <q0>, <q1> are two complete sub-queries of one kind (w, n or e) on ONE pool
+//!                             entry; repetition t = 0..count-1 runs q0 for even t and q1 for odd t (so the weights /
+//!                             the assignment alternate); only the LAST answer is printed.  Counts sit around the
+//!                             2^8 and 2^16 boundaries (255, 256, 257, 65535, 65536, 65537, 131072), so that per-thread
+//!                             / per-node counters of those widths wrap between two queries that share nodes.
 //! out:   one answer per query.  After EVERY query the harness walks every node reachable from
 //! every pool entry and from the result and requires is_scratch_cleared(); every answer is
 //! compared with the same query on a freshly built copy of the diagram in a new builder.
+//! In a case with an `r` query the scratch walk also runs after EVERY repetition, and the fresh-copy
+//! comparisons are deferred to the end of the case (so that the number of traversals between two
+//! queries on the builder under test is exactly the number the case text says; the fresh copy of an
+//! `r` query runs its last sub-query once: that is what purity promises for the repeated one).
 use rsdd::constants::primes;
 use rsdd::repr::{create_semantic_hash_map, BddPtr, DDNNFPtr, VarLabel, WmcParams};
 use rsdd::util::semirings::{FiniteField, RealSemiring};
@@ -24,7 +33,108 @@ fn main() {
     run_main(PROP)
 }
 
+const REPEAT_COUNTS: [usize; 7] = [255, 256, 257, 65535, 65536, 65537, 131072];
+
+fn push_weights(rng: &mut Rng, s: &mut String, total: usize) {
+    for _ in 0..total {
+        s.push_str(&format!(" {} {}", rng.below(5), rng.below(5)));
+    }
+}
+
+/// `r <count> <q0> <q1>` on pool entry c
+fn push_repeat(rng: &mut Rng, s: &mut String, count: usize, c: usize, total: usize) {
+    s.push_str(&format!(" r {count}"));
+    match rng.below(6) {
+        0 => s.push_str(&format!(" n {c} n {c}")),
+        1 => {
+            for _ in 0..2 {
+                s.push_str(&format!(" e {c}"));
+                for _ in 0..total { s.push_str(&format!(" {}", rng.coin() as u8)); }
+            }
+        }
+        _ => {
+            for _ in 0..2 {
+                s.push_str(&format!(" w {c}"));
+                push_weights(rng, s, total);
+            }
+        }
+    }
+}
+
+/// Directed family (about 1.7% of the cases): a SMALL program (<= 5 variables) extended by
+///   n = a function of the variables below the two top variables t0, t1 of the order,
+///   A = t0 & n,  B = +-t1 & n   (two diagrams with different roots that share the nodes of n),
+///   C = a function of t0, t1 only (no node in common with n),
+/// and the queries   <q on A, weights p1> ; r <count> <cheap query on C> ; <q on B, weights p2> ; ...
+/// with count around 2^8 / 2^16: whatever per-traversal state an implementation keeps (a generation
+/// stamp, a visit counter), a memo left in n by the first query must not be taken for a current one by
+/// the last, however many traversals of other diagrams lie in between.  A quarter of these cases picks
+/// A, B, C at random in the pool instead.
+fn gen_repeat_case(rng: &mut Rng) -> String {
+    let o = GenOpts { max_vars: 5, max_ops: 5, new_vars: false, small_tables: false };
+    // idx/n = 1/2: 3..4 variables, 5..9 random operations first
+    let size = rng.range(40, 99);
+    let p = gen_prog(rng, size, 100, &o);
+    let prog = parse(&p);
+    let total = prog.total_vars();
+    let m = prog.ops.len();
+    let order = prog.pos_to_var();
+    let mut s = p.clone();
+    let (a, b, c);
+    if total >= 3 && !rng.chance(1, 4) {
+        let (t0, t1) = (order[0], order[1]);
+        let rest = &order[2..];
+        let mut k = m;
+        // n over the remaining variables
+        s.push_str(&format!(" v {} {}", rest[0], rng.coin() as u8));
+        k += 1;
+        let mut nidx = k - 1;
+        for r in &rest[1..] {
+            s.push_str(&format!(" v {r} {}", rng.coin() as u8));
+            s.push_str(&format!(" {} {} {}", *rng.pick(&["a", "o", "x", "e"]), nidx, k));
+            k += 2;
+            nidx = k - 1;
+        }
+        s.push_str(&format!(" v {t0} 1 v {t1} {}", rng.coin() as u8));
+        s.push_str(&format!(" a {} {nidx} a {} {nidx}", k, k + 1));
+        a = k + 2;
+        b = k + 3;
+        s.push_str(&format!(" {} {} {}", *rng.pick(&["a", "o", "x"]), k, k + 1));
+        c = k + 4;
+    } else {
+        let npool = m as u64;
+        a = rng.below(npool) as usize;
+        b = rng.below(npool) as usize;
+        c = rng.below(npool) as usize;
+    }
+    s.push_str(" Q");
+    let count = *rng.pick(&REPEAT_COUNTS);
+    // same-typed first and last query (a memo of another type is invisible to the last one)
+    let kind = rng.below(8);
+    let q = |rng: &mut Rng, s: &mut String, i: usize| match kind {
+        0 => s.push_str(&format!(" n {i}")),
+        1 => s.push_str(&format!(" f {i}")),
+        2 => { s.push_str(&format!(" e {i}")); for _ in 0..total { s.push_str(&format!(" {}", rng.coin() as u8)); } }
+        _ => { s.push_str(&format!(" w {i}")); push_weights(rng, s, total); }
+    };
+    q(rng, &mut s, a);
+    push_repeat(rng, &mut s, count, c, total);
+    q(rng, &mut s, b);
+    // and afterwards the first diagram again (its ROOT carries the old memo), then a few more
+    q(rng, &mut s, a);
+    if rng.coin() {
+        let (cnt, on) = (*rng.pick(&[1usize, 2, 3, 254, 255, 256]), rng.below((c + 1) as u64) as usize);
+        push_repeat(rng, &mut s, cnt, on, total);
+        q(rng, &mut s, b);
+    }
+    s.push_str(&format!(" n {a} n {b}"));
+    s
+}
+
 pub fn gen(rng: &mut Rng, idx: usize, n: usize, thorough: bool) -> String {
+    if idx > n / 10 && rng.chance(1, 60) {
+        return gen_repeat_case(rng);
+    }
     let o = GenOpts { max_vars: if thorough { 7 } else { 6 }, max_ops: if thorough { 30 } else { 14 }, new_vars: false, small_tables: false };
     let p = gen_prog(rng, idx, n, &o);
     let prog = parse(&p);
@@ -74,14 +184,34 @@ pub fn gen(rng: &mut Rng, idx: usize, n: usize, thorough: bool) -> String {
 }
 
 #[derive(Clone, Debug)]
-enum Q { D(Vec<Vec<(u64, bool)>>, Vec<(u64, bool)>), W(usize, Vec<(u64, u64)>), F(usize), E(usize, Vec<bool>), N(usize), H(usize), M(usize, Vec<u64>), C(usize, u64, bool), S(usize, usize) }
+enum Q { D(Vec<Vec<(u64, bool)>>, Vec<(u64, bool)>), W(usize, Vec<(u64, u64)>), F(usize), E(usize, Vec<bool>), N(usize), H(usize), M(usize, Vec<u64>), C(usize, u64, bool), S(usize, usize), R(usize, Box<Q>, Box<Q>) }
 
 fn parse_queries(t: &[String], total: usize) -> Vec<Q> {
     let mut i = 1;
     let mut qs = vec![];
-    let u = |s: &String| -> usize { s.parse().unwrap() };
     while i < t.len() {
+        i = parse_one(t, i, total, &mut qs);
+    }
+    qs
+}
+
+/// parses the query that starts at token i, pushes it, returns the index of the next query
+fn parse_one(t: &[String], start: usize, total: usize, qs: &mut Vec<Q>) -> usize {
+    let mut i = start;
+    let u = |s: &String| -> usize { s.parse().unwrap() };
+    {
         match t[i].as_str() {
+            "r" => {
+                let count = u(&t[i + 1]);
+                let mut sub = vec![];
+                let j = parse_one(t, i + 2, total, &mut sub);
+                let j = parse_one(t, j, total, &mut sub);
+                let q1 = sub.pop().unwrap();
+                let q0 = sub.pop().unwrap();
+                assert!(count >= 1 && matches!((&q0, &q1), (Q::W(..), Q::W(..)) | (Q::N(..), Q::N(..)) | (Q::E(..), Q::E(..))), "bad repeat");
+                qs.push(Q::R(count, Box::new(q0), Box::new(q1)));
+                i = j
+            }
             "w" => { let w = (0..total).map(|v| (u(&t[i + 2 + 2 * v]) as u64, u(&t[i + 3 + 2 * v]) as u64)).collect(); qs.push(Q::W(u(&t[i + 1]), w)); i += 2 + 2 * total }
             "f" => { qs.push(Q::F(u(&t[i + 1]))); i += 2 }
             "e" => { let a = (0..total).map(|v| t[i + 2 + v] != "0").collect(); qs.push(Q::E(u(&t[i + 1]), a)); i += 2 + total }
@@ -107,7 +237,7 @@ fn parse_queries(t: &[String], total: usize) -> Vec<Q> {
             _ => panic!("bad query"),
         }
     }
-    qs
+    i
 }
 
 fn answer<'a>(b: &'a AnyBuilder<'a>, pool: &[BddPtr<'a>], q: &Q, total: usize) -> (String, Option<BddPtr<'a>>) {
@@ -135,6 +265,8 @@ fn answer<'a>(b: &'a AnyBuilder<'a>, pool: &[BddPtr<'a>], q: &Q, total: usize) -
             (format!("m{}:{}", val, asg.join(",")), None)
         }
         Q::D(..) => ("ok".to_string(), None),
+        // on its own (fresh copy): the last repetition only; the builder under test repeats in `run`
+        Q::R(c, q0, q1) => answer(b, pool, if (c - 1) % 2 == 0 { q0 } else { q1 }, total),
         Q::C(i, v, val) => { let r = b.condition(pool[*i], *v, *val); let mut s = String::new(); unfold(r, &mut s); (s, Some(r)) }
         Q::S(i, n) => { let r = b.smooth(pool[*i], *n); let mut s = String::new(); unfold(r, &mut s); (s, Some(r)) }
     }
@@ -187,26 +319,61 @@ pub fn run(case: &str, st: &mut Stats) -> Outcome {
     let pool = exec(&b, &prog, &mut dummy);
     let mut fails = vec![];
     let mut outs = vec![];
+    // with a repeat query in the case, the fresh-copy comparisons wait until all queries have run on
+    // the builder under test (the traversals of the copies would otherwise sit between the queries)
+    let defer = qs.iter().any(|q| matches!(q, Q::R(..)));
+    let mut deferred: Vec<(usize, String)> = vec![];
     for (k, q) in qs.iter().enumerate() {
-        let (a, res) = answer(&b, &pool, q, total);
+        let (a, res) = match q {
+            Q::R(c, q0, q1) => {
+                let mut last = (String::new(), None);
+                let mut dirty_at = None;
+                for t in 0..*c {
+                    last = answer(&b, &pool, if t % 2 == 0 { q0 } else { q1 }, total);
+                    // between any two public calls every slot is empty
+                    if dirty_at.is_none() && t + 1 < *c && pool.iter().any(|p| uncleared(*p)) {
+                        dirty_at = Some(t);
+                    }
+                }
+                if let Some(t) = dirty_at {
+                    fails.push(format!("query {k}: after repetition {t} of {c} of ({q0:?}) some reachable node has scratch data (no call in progress)"));
+                }
+                st.add("repeat_iterations", *c as u64);
+                st.bump(if *c >= 65535 { "q_repeat_count>=65535" } else if *c >= 254 { "q_repeat_count_254..257" } else { "q_repeat_count<=3" });
+                last
+            }
+            _ => answer(&b, &pool, q, total),
+        };
         // every per-node scratch slot is empty again
         let dirty = pool.iter().any(|p| uncleared(*p)) || res.map_or(false, uncleared);
         if dirty {
             fails.push(format!("after query {k} ({q:?}) some reachable node still has scratch data"));
         }
         // same answer as on a freshly built copy
-        let b2 = AnyBuilder::new(&prog);
-        let pool2 = exec(&b2, &prog, &mut dummy);
-        let (a2, _) = answer(&b2, &pool2, q, total);
-        if a != a2 {
-            fails.push(format!("query {k} ({q:?}) answered {a} after {k} earlier queries but {a2} on a freshly built copy"));
+        if defer {
+            deferred.push((k, a.clone()));
+        } else {
+            let b2 = AnyBuilder::new(&prog);
+            let pool2 = exec(&b2, &prog, &mut dummy);
+            let (a2, _) = answer(&b2, &pool2, q, total);
+            if a != a2 {
+                fails.push(format!("query {k} ({q:?}) answered {a} after {k} earlier queries but {a2} on a freshly built copy"));
+            }
         }
         if let Q::D(cls, lits) = q {
             dnnf_conditions(cls, lits, k, &mut fails);
         }
-        st.bump(match q { Q::D(..) => "q_dnnf_conditions", Q::W(..) => "q_wmc_real", Q::F(..) => "q_wmc_ff", Q::E(..) => "q_evaluate", Q::N(..) => "q_count_nodes", Q::H(..) => "q_semantic_hash", Q::M(..) => "q_marginal_map", Q::C(..) => "q_condition", Q::S(..) => "q_smooth" });
+        st.bump(match q { Q::D(..) => "q_dnnf_conditions", Q::W(..) => "q_wmc_real", Q::F(..) => "q_wmc_ff", Q::E(..) => "q_evaluate", Q::N(..) => "q_count_nodes", Q::H(..) => "q_semantic_hash", Q::M(..) => "q_marginal_map", Q::C(..) => "q_condition", Q::S(..) => "q_smooth", Q::R(..) => "q_repeat" });
         // hash / MAP answers are compared with the fresh copy only (the model does not compute them)
         outs.push(match q { Q::H(..) | Q::M(..) | Q::D(..) => "ok".to_string(), _ => a });
+    }
+    for (k, a) in deferred {
+        let b2 = AnyBuilder::new(&prog);
+        let pool2 = exec(&b2, &prog, &mut dummy);
+        let (a2, _) = answer(&b2, &pool2, &qs[k], total);
+        if a != a2 {
+            fails.push(format!("query {k} ({:?}) answered {a} after {k} earlier queries but {a2} on a freshly built copy", qs[k]));
+        }
     }
     // do distinct pool entries share nodes? (the interesting case for residue)
     let nontrivial = qs.len() >= 3 && pool.iter().filter(|p| matches!(p, BddPtr::Reg(_) | BddPtr::Compl(_))).count() >= 2;
